@@ -129,7 +129,7 @@ def stmt(s, ind):
         ty = f": {s['ty']}" if s.get("ty") else ""
         return f"{pad}{flags}{s['n']}{ty} = {expr(s['e'])}\n"
     if k == "unpack":
-        return f"{pad}[{', '.join(s['ns'])}] = {expr(s['e'])}\n"
+        return f"{pad}{'const ' if s.get('const') else ''}[{', '.join(s['ns'])}] = {expr(s['e'])}\n"
     if k == "assign":
         if s["op"] == "=":
             return f"{pad}{lvalue(s['target'])} = {expr(s['e'])}\n"
